@@ -261,4 +261,4 @@ def run(sh):
         sh.run_case(case, nontrivial=nontrivial(case["tree"], case["comb"]),
                     labels=(f"l2_{case['via']}",), raise_unattributed=True)
 
-    sh.given(sampled_case("L2"), body, sh.budget(320, 3000), tag="l2")
+    sh.given(sampled_case("L2"), body, sh.budget(320, 16000), tag="l2")
